@@ -1,7 +1,8 @@
 (* regenerated on every run by `h16 -gen`: exhaustive enumeration, on the running Go code
-   (ControllableTask.UnmarshalTransition/Transition -> ExecutorCommand_Transition.Commit ->
+   (executor.handleMessageEvent -> ControllableTask.UnmarshalTransition/Transition ->
+   ExecutorCommand_Transition.Commit ->
    transitioner.Commit -> RpcClient.doTransition against the simulated device; observed: the
-   state/error of the marshalled response), of every (mode, event, source state, strictness) and, as a prefix tree, every outcome
+   state/error of the MESSAGE payload sent to the core), of every (mode, event, source state, strictness) and, as a prefix tree, every outcome
    script: one outcome per request that is actually issued.  Do not edit. *)
 From Verif Require Import Common FairMQ.
 Open Scope N_scope.
